@@ -91,6 +91,96 @@ Print Assumptions C20_expired_kept_not_called.
 Print Assumptions C20_others_called_exactly_once.
 Print Assumptions C20_empty_join_no_calls.
 
+(* ------------------------------------------------------------------ functions with named outputs (_dict_output)
+   f returns a record of outputs; caches holds, per output, the previously computed values (None = not
+   supplied).  perdictN f args caches x = (what the call returns, the calls of f).  The same clauses: *)
+Section AnyRecordFunction.
+  Variable f : list pval -> list pval.
+
+  Theorem C20_dict_output_scalar_passthrough args caches x : any_tableN args caches x = false ->
+    perdictN f args caches x = (NScalar (f (row_args args [])), [([], row_args args [])]).
+  Proof. exact (scalar_passthroughN f args caches x). Qed.
+
+  (* key set: every non-default table input must hold the key; caches and expiry only add keys when no such input exists *)
+  Theorem C20_dict_output_rows_are_common_keys args caches x :
+    (forall k, In k (keysN args caches x) ->
+       (forall a, In a (nondef args) -> ahas k a = true) /\ In k (flat_map tkeys args ++ flat_map dkeys caches ++ xkeys x)) /\
+    (forall k, In k (flat_map tkeys args ++ flat_map dkeys caches ++ xkeys x) -> (forall a, In a (nondef args) -> ahas k a = true) ->
+       exists k', In k' (keysN args caches x) /\ tkeq k k' = true).
+  Proof. split; [exact (keysN_sound args caches x) | exact (keysN_complete args caches x)]. Qed.
+
+  Theorem C20_dict_output_sorted_by_key args caches x : StronglySorted (fun a b => tcmp a b <= 0) (keysN args caches x).
+  Proof. apply keysN_sorted. Qed.
+
+  (* one row per key, in order; the record is f of the row's arguments (defaults / broadcast as in C20_defaults_extend,
+     which speaks about arg_value and applies unchanged) unless the row is expired *)
+  Theorem C20_dict_output_value_is_f_of_row args caches x : any_tableN args caches x = true -> keysN args caches x <> [] ->
+    perdictN f args caches x =
+    (NTable (map (fun k => (k, if runsN caches x k then f (row_args args k) else cachesN caches k)) (keysN args caches x)),
+     map (fun k => (k, row_args args k)) (filter (runsN caches x) (keysN args caches x))).
+  Proof. exact (table_resultN f args caches x). Qed.
+
+  (* expired = a value was supplied for EVERY output and the expiry is in the past: every output keeps the supplied
+     value (None where the cache lacks the key) and f is not called for the row *)
+  Theorem C20_dict_output_expired_kept_not_called args caches x k : any_tableN args caches x = true ->
+    In k (keysN args caches x) -> forallb supplied caches = true -> exp_of x k = EPast ->
+    exists rows trace, perdictN f args caches x = (NTable rows, trace) /\
+      In (k, map (fun d => cache_of d k) caches) rows /\ ~ In k (map fst trace).
+  Proof.
+    intros AT I SU EX. assert (R : runsN caches x k = false) by (apply runsN_iff; auto).
+    assert (NE : keysN args caches x <> []) by (intros E; rewrite E in I; destruct I).
+    rewrite (table_resultN f args caches x AT NE). do 2 eexists. split; [reflexivity|]. split.
+    - apply in_map_iff. exists k. rewrite R. auto.
+    - rewrite map_map. simpl. rewrite map_id. rewrite filter_In. rewrite R. intros [_ X]. discriminate.
+  Qed.
+
+  Theorem C20_dict_output_others_called_exactly_once args caches x :
+    any_tableN args caches x = true -> keysN args caches x <> [] ->
+    (forall a, In a args -> NoDup (tkeys a)) -> (forall d, In d caches -> NoDup (dkeys d)) ->
+    exists rows trace, perdictN f args caches x = (NTable rows, trace) /\
+      NoDup (map fst trace) /\
+      (forall k, In k (map fst trace) <-> In k (keysN args caches x) /\ ~ (forallb supplied caches = true /\ exp_of x k = EPast)) /\
+      (forall k a, In (k, a) trace -> a = row_args args k /\ In (k, f a) rows).
+  Proof.
+    intros AT NE U V. rewrite (table_resultN f args caches x AT NE). do 2 eexists. split; [reflexivity|].
+    rewrite map_map. simpl. rewrite map_id. split; [|split].
+    - apply NoDup_filter. apply keysN_nodup; assumption.
+    - intros k. rewrite filter_In. rewrite <- runsN_iff. destruct (runsN caches x k); split; intros [A B]; split; auto; congruence.
+    - intros k a I. apply in_map_iff in I. destruct I as (k0 & E & I). inversion E; subst.
+      apply filter_In in I. destruct I as [I R]. split; auto. apply in_map_iff. exists k. rewrite R. auto.
+  Qed.
+
+  Theorem C20_dict_output_empty_join_no_calls args caches x : any_tableN args caches x = true -> keysN args caches x = [] ->
+    perdictN f args caches x = (NEmpty caches, []).
+  Proof. exact (empty_resultN f args caches x). Qed.
+End AnyRecordFunction.
+Print Assumptions C20_dict_output_scalar_passthrough.
+Print Assumptions C20_dict_output_rows_are_common_keys.
+Print Assumptions C20_dict_output_sorted_by_key.
+Print Assumptions C20_dict_output_value_is_f_of_row.
+Print Assumptions C20_dict_output_expired_kept_not_called.
+Print Assumptions C20_dict_output_others_called_exactly_once.
+Print Assumptions C20_dict_output_empty_join_no_calls.
+
+(* the plain-function path is the one-output instance: both paths are one model *)
+Theorem C20_value_path_is_one_output (f : list pval -> pval) args d x :
+  perdictN (fun l => [f l]) args [d] x = (lift1 (fst (perdict f args d x)), snd (perdict f args d x)).
+Proof. exact (value_path_is_one_output f args d x). Qed.
+Print Assumptions C20_value_path_is_one_output.
+
+Example C20_dict_output_example :
+  let K s := [CStr [s]] in
+  let a := mkArg (Table [(K 120, VInt 1); (K 121, VInt 2); (K 122, VInt 3)]) None in
+  let b := mkArg (Table [(K 122, VInt 5); (K 121, VInt 4); (K 119, VInt 6)]) None in
+  let p := Some [(K 121, VInt 500); (K 122, VInt 600)] in let q := Some [(K 121, VInt 501)] in
+  let x := XTable [(K 121, EPast); (K 122, EPast)] in
+  (* both outputs supplied: y and z expired, nothing is called, q of z is None *)
+  perdictN (fouts 2) [a; b] [p; q] x = (NTable [(K 121, [VInt 500; VInt 501]); (K 122, [VInt 600; VNone])], []) /\
+  (* q not supplied: every row is recomputed once *)
+  perdictN (fouts 2) [a; b] [p; None] x =
+    (NTable [(K 121, [VInt 10042; VInt 20042]); (K 122, [VInt 10053; VInt 20053])], [(K 121, [VInt 2; VInt 4]); (K 122, [VInt 3; VInt 5])]).
+Proof. vm_compute. auto. Qed.
+
 (* non-vacuous: inner keys {y,z} of {x,y,z} x {y,z,w}; b with a default turns it into a left join;
    y is cached with a past expiry (kept, not called), z has a future expiry (recomputed once) *)
 Example C20_example :
